@@ -4,8 +4,8 @@
    emits for a scalar node with bound rules (tied by correspondence on the emitted keywords) and what JSON Schema
    means by them, on the decimal VALUES the texts denote. *)
 From Coq Require Import List ZArith NArith Bool.
-From JS Require Import Base.Res Spec.Decimal Model.AllOf Model.Number Model.EnumParse Model.RuleSem Model.OasSem
-  Proofs.DigitArith Proofs.NumberCmp Proofs.NumberNorm Proofs.NumberScan Proofs.NumberMain Proofs.RuleProofs Proofs.OasProofs.
+From JS Require Import Base.Res Spec.Decimal Model.AllOf Model.Number Model.EnumParse Model.RuleSem Model.OasSem Model.OasLeaf Model.OasTree
+  Proofs.DigitArith Proofs.NumberCmp Proofs.NumberNorm Proofs.NumberScan Proofs.NumberMain Proofs.RuleProofs Proofs.OasProofs Proofs.OasLeafProofs Proofs.OasTreeProofs.
 Import ListNotations.
 
 (* every value the checker accepts for a node (type + min/max with exclusivity, whatever the spelling of value and
@@ -20,4 +20,36 @@ Local Open Scope N_scope.
 Example C08_example :
   to_oas (Leaf KFloat [RMin [45;49;48;48] true; RPrecision 2; RMax [53;46;48] false])
   = mk_oas (Some ONumber) (Some ([45;49;48;48], true)) (Some ([53;46;48], false)).
+Proof. reflexivity. Qed.
+
+(* ---- scalar nodes in full (Model/OasLeaf.v): type, minimum/maximum, minLength/maxLength (code points), multipleOf = 10^-precision,
+   enum (incl. const and the null type), nullable.  ex is the example written in the schema; the first validate premise is
+   what Check() established (the example satisfies its own rules), the second says v is a value those rules accept *)
+Theorem C08_leaf_sound : forall ex k rules v,
+  exp_small v -> bounds_readable rules ->
+  (lit_kind v = KNull -> v = w_null_lit) -> (lit_kind ex = KNull -> ex = w_null_lit) ->
+  validate (Leaf k rules) (Some ex) ex = true -> validate (Leaf k rules) (Some ex) v = true ->
+  jx_valid (to_oasx ex (Leaf k rules)) v.
+Proof. exact oasx_sound. Qed.
+Print Assumptions C08_leaf_sound.
+
+(* ---- whole schemas without references (Model/OasTree.v): literal nodes under arrays (items as anyOf, minItems/maxItems, an
+   empty array closed with maxItems 0) and objects (properties, required, additionalProperties false / any / a type name);
+   `inst n v`: v is a value the schema's own rules accept.  Every such value is valid against the converted schema ... *)
+Theorem C08_tree_sound : forall n, accepted n -> forall v, inst n v -> tvalid (to_otree n) v.
+Proof. exact tree_sound. Qed.
+Print Assumptions C08_tree_sound.
+(* ... in particular the schema's own example *)
+Theorem C08_example_valid : forall n, accepted n -> tvalid (to_otree n) (example n).
+Proof. exact example_valid. Qed.
+Print Assumptions C08_example_valid.
+
+Example C08_tree_example :
+  (* { "a": 0.25 // {precision: 2}, "b": [1, "x"] // {optional: true} } *)
+  let n := SObj [([97], (false, SLeaf [48;46;50;53] (Leaf KFloat [RPrecision 2])));
+                 ([98], (true, SArr [SLeaf [49] (Leaf KInt []); SLeaf [34;120;34] (Leaf KStr [])] None None false))] APFalse false in
+  to_otree n =
+  OObj [([97], OLeaf (mk_oasx (Some ONumber) None None None None (Some 2%Z) None false));
+        ([98], OArr [OLeaf (mk_oasx (Some OInteger) None None None None None None false);
+                     OLeaf (mk_oasx (Some OString) None None None None None None false)] None None false)] [[97]] APFalse false.
 Proof. reflexivity. Qed.
